@@ -339,6 +339,28 @@ Outcome run_c09(const Case &c) {
       }
     }
     disarm();
+    // epilogue (no faults): a datagram from X is queued, then the socket is connected to another peer Y (the kernel keeps what is queued):
+    // "receive_from reports the sender's address" - the sender is X, whoever the socket is connected to now
+    if (out.verdict.empty()) {
+      char drain[2048]; for (int i = 0; i < 64; i++) { struct pollfd dp = {p_socket_get_fd(ls), POLLIN, 0}; if (poll(&dp, 1, 0) <= 0) break; if (recv(p_socket_get_fd(ls), drain, sizeof drain, MSG_DONTWAIT) < 0) break; }
+      int raw2 = socket(fam == 6 ? AF_INET6 : AF_INET, SOCK_DGRAM, 0); sockaddr_storage r2; socklen_t r2l = loop_addr(fam, 0, r2);
+      if (raw2 >= 0 && bind(raw2, (sockaddr *)&r2, r2l) == 0 && sendto(raw, "from-x", 6, 0, (sockaddr *)&lsa, lsl) == 6) {
+        struct pollfd qp = {p_socket_get_fd(ls), POLLIN, 0};
+        PSocketAddress *ya = p_socket_address_new(fam == 6 ? "::1" : "127.0.0.1", (puint16)port_of(raw2));
+        if (poll(&qp, 1, 1000) > 0 && ya && p_socket_connect(ls, ya, NULL)) {
+          char b6[16]; PSocketAddress *from = NULL; PError *e = NULL;
+          pssize n = p_socket_receive_from(ls, &from, b6, sizeof b6, &e);
+          if (n == 6 && !memcmp(b6, "from-x", 6)) {
+            vl::stats().klass("udp_queued_datagram_read_after_connect_to_other_peer");
+            if (!from) fail("udp-sender", "receive_from on a connected datagram socket did not report the sender address");
+            else if (p_socket_address_get_port(from) != rport) fail("udp-sender", "receive_from reported sender port " + std::to_string(p_socket_address_get_port(from)) + " for a datagram sent from port " + std::to_string(rport) + " (the socket had meanwhile been connected to port " + std::to_string(port_of(raw2)) + ")");
+          } else vl::stats().count("udp_epilogue_datagram_not_read");
+          if (from) p_socket_address_free(from); if (e) p_error_free(e);
+        } else vl::stats().count("udp_epilogue_not_run");
+        if (ya) p_socket_address_free(ya);
+      }
+      if (raw2 >= 0) close(raw2);
+    }
     p_socket_address_free(peer_addr); p_socket_free(ls); close(raw);
     out.nontrivial = fault_in_blocking && receives >= 2;
     return out;
